@@ -263,7 +263,7 @@ pub fn run(args: &Args) -> i32 {
     report.set("history_depth", json!(depth));
     report.set("follow_ups", json!(follow_names));
     report.set("exhaustive", json!(true));
-    report.set("rule", json!("every history of <= depth steps over H from 4 base states on DbImpl<Faulty(FileStorage)>; for the last step every storage write/resize call (distinct_nontrivial = number of distinct (step, call ordinal) fault points) fails once without being performed; oracle: the query returns Err, the database is unchanged, each follow-up step behaves as on a never-faulted database, and close + reopen preserves the follow-up's effect"));
+    report.set("rule", json!("every history of <= depth steps over H from 5 base states on DbImpl<Faulty(FileStorage)>; for the last step every storage write/resize call (distinct_nontrivial = number of distinct (step, call ordinal) fault points) fails once without being performed; oracle: the query returns Err, the database is unchanged, each follow-up step behaves as on a never-faulted database, and close + reopen preserves the follow-up's effect"));
     report.assume("fault model: the n-th write/resize returns Err without side effect (disk full); read, flush, rename and backup never fail");
     report.finish()
 }
